@@ -216,7 +216,7 @@ def run(scn):
         sim.step()
         cyc += 1
         if not cyc & 63 and stuck(sim, cyc):
-            break       # no handshake anywhere for 20000 cycles: the run is stuck, do not spin to the cap
+            break       # no handshake anywhere for 60000 cycles: the run is stuck, do not spin to the cap
         if mas.done() and mem.idle() and got[0] >= len(expect):
             quiet += 1
             if quiet > need_quiet:
